@@ -118,7 +118,7 @@ func renderVal(v any) string {
 	case nil:
 		return "nil"
 	case string:
-		return "s:" + x
+		return "s:" + fmt.Sprintf("%x", x)
 	case bool:
 		return fmt.Sprintf("b:%v", x)
 	case int:
@@ -161,9 +161,9 @@ func u256s(x uint256.Int) string { return "n:" + x.Dec() }
 func expectField(f string, it item, src, ig string, chainID uint64) string {
 	switch f {
 	case "src_name":
-		return "s:" + src
+		return "s:" + fmt.Sprintf("%x", src)
 	case "ig_name":
-		return "s:" + ig
+		return "s:" + fmt.Sprintf("%x", ig)
 	case "chain_id":
 		return fmt.Sprintf("n:%d", chainID)
 	case "block_hash":
@@ -207,7 +207,7 @@ func expectField(f string, it item, src, ig string, chainID uint64) string {
 	case "log_addr":
 		return fmt.Sprintf("x:%x", it.l.Addr)
 	case "trace_action_call_type":
-		return "s:" + it.ta.CallType
+		return "s:" + fmt.Sprintf("%x", it.ta.CallType)
 	case "trace_action_idx":
 		return fmt.Sprintf("n:%d", it.ti)
 	case "trace_action_from":
@@ -242,7 +242,7 @@ func isTraceField(f string) bool { return strings.HasPrefix(f, "trace_") }
 
 // buildIG makes a config.Integration selecting block fields `fields` (column = field name) and
 // an optional event, runs the real ValidateFix and dig.New on it.
-func buildIG(name, table string, fields []string, ev *dig.Event, cols []wpg.Column, agg string, mod func(*config.Integration)) (dig.Integration, config.Integration, error) {
+func buildIG(name, table string, fields []string, ev *dig.Event, cols []wpg.Column, agg string, mod func(*config.Integration), extra ...config.Integration) (dig.Integration, config.Integration, error) {
 	ig := config.Integration{Name: name, Enabled: true, FilterAGG: agg}
 	ig.Table.Name = table
 	ig.Table.Columns = append(ig.Table.Columns, cols...)
@@ -256,7 +256,7 @@ func buildIG(name, table string, fields []string, ev *dig.Event, cols []wpg.Colu
 	if mod != nil {
 		mod(&ig)
 	}
-	root := config.Root{Integrations: []config.Integration{ig}}
+	root := config.Root{Integrations: append([]config.Integration{ig}, extra...)}
 	if err := config.ValidateFix(&root); err != nil {
 		return dig.Integration{}, ig, err
 	}
